@@ -245,7 +245,8 @@ CHECKS["C18"] = dict(
          "polynomial skeletons with symbolic element degrees (scalar polynomials with powers and gradients, components "
          "of mixed, nested mixed, symmetric, symmetric-in-mixed and Piola-on-manifold elements, sub/super-degree pairs, "
          "restriction/conj/real/imag/variable/transpose wrappers, unlowered inner/dot/outer/cross/div/curl/nabla_*, "
-         "conditional/min/max, quadrilateral cells, meshes with symbolic coordinate degree); "
+         "conditional/min/max, quadrilateral cells, meshes with symbolic coordinate degree, hand-built list tensors of "
+         "mixed-coefficient components); "
          "CrossHair confirms over all paths that estimate >= the exact generic-data degree computed by an independent "
          "max-plus calculus with its own physical-component -> sub-element map.",
     technique="CrossHair symbolic execution (z3) of the real degree-estimation handlers with symbolic degrees",
